@@ -765,4 +765,164 @@ theorem melt_cases (cx : Cx) (qid : Int) (ps : List Proof) (s s' : DL) (r : Exce
         exact ⟨this.2, this.1⟩
 
 
+/-! ## Polling a pending melt -/
+
+/-- Inputs locked by melt quote `qid`, as rows for the spent table. -/
+def quoteRows (db : DB) (qid : Nat) : List PRow := (db.pending.filter (·.quote == qid)).map (fun r => { r with quote := 0 })
+def quoteYs (db : DB) (qid : Nat) : List Nat := (db.pending.filter (·.quote == qid)).map (·.y)
+
+/-- Tables after a poll of a PENDING melt quote, by the answer's verdict. -/
+def pollDb (db : DB) (q : MeltQ) : LQState → DB
+  | .pending => db
+  | .paid => { db with pending := db.pending.filter (fun r => !(quoteYs db q.id).contains r.y),
+                       spent := db.spent ++ quoteRows db q.id,
+                       meltQ := updMeltQ db.meltQ q.id (q.hash + 1) .paid }
+  | .unpaid => { db with pending := db.pending.filter (fun r => !(quoteYs db q.id).contains r.y),
+                         meltQ := updMeltQ db.meltQ q.id 0 .unpaid }
+
+/-- What a status-lookup answer means for a pending melt when it is polled (C05): only a clean
+    `succ` / `failed` is adopted; `pending` and every answer that carries an error (including not-found) change nothing. -/
+def pollOutcome : LnAns → LQState
+  | .succ => .paid
+  | .failed => .unpaid
+  | _ => .pending
+
+/-- The parts of table well-formedness a poll relies on. -/
+structure PendingWf (db : DB) : Prop where
+  pendingNodup : (ysOf db.pending).Nodup
+  disjoint : ∀ r ∈ db.pending, r.y ∉ ysOf db.spent
+  pendingLow : ∀ r ∈ db.pending, high r.amount = false
+
+theorem quoteRows_insert (db : DB) (qid : Nat) (h : PendingWf db) :
+    insertRows db.spent (quoteRows db qid) = some (db.spent ++ quoteRows db qid) := by
+  apply insertRows_of
+  · have : (quoteRows db qid).map (·.y) = (db.pending.filter (·.quote == qid)).map (·.y) := by
+      simp [quoteRows, List.map_map, Function.comp_def]
+    rw [this]
+    exact List.Nodup.sublist (List.Sublist.map _ List.filter_sublist) h.pendingNodup
+  · intro r hr
+    simp only [quoteRows, List.mem_map, List.mem_filter] at hr
+    obtain ⟨r0, ⟨hr0, _⟩, rfl⟩ := hr
+    exact h.disjoint r0 hr0
+  · intro r hr
+    simp only [quoteRows, List.mem_map, List.mem_filter] at hr
+    obtain ⟨r0, ⟨hr0, _⟩, rfl⟩ := hr
+    exact h.pendingLow r0 hr0
+
+theorem runM_removePendingForQuote_bind {β : Type} (qid : Nat) (f : List PRow → PM β) (db : DB) (ln : LN) :
+    runM (removePendingForQuote qid >>= f) (db, ln) =
+      runM (f (quoteRows db qid)) ({ db with pending := db.pending.filter (fun r => !(quoteYs db qid).contains r.y) }, ln) := by
+  rw [runM_bind]
+  simp only [removePendingForQuote]
+  prog_simp [runM_pure]
+  rfl
+
+theorem poll_cases (qid : Int) (s s' : DL) (r : Except E MeltQ) (hwf : PendingWf s.1)
+    (h : runM (getMeltQuoteState qid) s = (s', r)) :
+    (dbGetMeltQ s.1 qid = .error .notFound ∧ r = .error eQuoteNotExist ∧ s' = s) ∨
+    (∃ q, dbGetMeltQ s.1 qid = .ok q ∧
+      ((q.state ≠ .pending ∧ r = .ok q ∧ s' = s) ∨
+       (q.state = .pending ∧
+         r = .ok (tailQuote q (pollOutcome (ans0 s.2))) ∧
+         s'.1 = pollDb s.1 q (pollOutcome (ans0 s.2))))) := by
+  obtain ⟨db, ln⟩ := s
+  prog_simp [getMeltQuoteState] at h
+  cases hq : dbGetMeltQ db qid with
+  | error e =>
+    simp only [hq] at h; left; cases h
+    refine ⟨?_, rfl, rfl⟩
+    unfold dbGetMeltQ at hq; split at hq <;> cases hq; rfl
+  | ok q =>
+    right
+    refine ⟨q, rfl, ?_⟩
+    simp only [hq] at h
+    obtain ⟨_, _, hany⟩ := dbGetMeltQ_ok hq
+    by_cases hp : q.state = .pending
+    · right
+      refine ⟨hp, ?_⟩
+      have hne : (q.state != LQState.pending) = false := by simp [hp]
+      simp only [hne, Bool.false_eq_true, if_false] at h
+      prog_simp [runM_pure] at h
+      have hins := quoteRows_insert db q.id hwf
+      cases ha : (popScript ln).2 <;> simp only [ha, ansHasErr, Bool.false_eq_true, if_false, if_true] at h
+      all_goals simp only [ans0, ha, pollOutcome, tailQuote, pollDb]
+      case succ =>
+        prog_simp [runM_removePendingForQuote_bind] at h
+        simp only [hins, any_updMeltQ, hany, if_true] at h
+        cases h
+        exact ⟨rfl, rfl⟩
+      case failed =>
+        prog_simp [runM_removePendingForQuote_bind] at h
+        simp only [hany, if_true] at h
+        cases h
+        exact ⟨rfl, rfl⟩
+      all_goals (cases h; exact ⟨rfl, rfl⟩)
+    · left
+      have hne : (q.state != LQState.pending) = true := by simp [hp]
+      simp only [hne, if_true] at h
+      cases h
+      exact ⟨hp, rfl, rfl⟩
+
+
+/-! ## Restore and state check -/
+
+theorem restore_runM (bs : List Nat) (s : DL) :
+    runM (restoreSigs bs) s = (s, .ok (bs.filterMap (fun b => s.1.sigs.find? (·.b == b)))) := by
+  obtain ⟨db, ln⟩ := s
+  induction bs with
+  | nil => rfl
+  | cons b rest ih =>
+    simp only [restoreSigs]
+    prog_simp [runM_pure]
+    unfold dbGetSig
+    cases hf : db.sigs.find? (·.b == b) with
+    | none => simp only [List.filterMap_cons, hf]; exact ih
+    | some sg =>
+      simp only [List.filterMap_cons, hf]
+      rw [runM_bind, ih]
+      rfl
+
+/-- `ProofsStateCheck` answers from the tables as they are after re-polling the pending melts involved. -/
+theorem checkstate_runM (ys : List YRef) (s : DL) :
+    runM (proofsStateCheck ys) s =
+      match runM (pollAll (dedupNat ((s.1.pending.filter (fun r => yMatch ys r.y)).map (·.quote))).reverse) s with
+      | (s1, .ok _) =>
+        (s1, .ok (ys.map (stateOf (s1.1.spent.filter (fun r => yMatch ys r.y)) (s1.1.pending.filter (fun r => yMatch ys r.y)))))
+      | (s1, .error e) => (s1, .error e) := by
+  obtain ⟨db, ln⟩ := s
+  simp only [proofsStateCheck]
+  prog_simp [runM_pure]
+  rw [runM_bind]
+  generalize runM (pollAll _) (db, ln) = x
+  obtain ⟨⟨db1, ln1⟩, r1⟩ := x
+  cases r1 with
+  | error e => rfl
+  | ok u =>
+    simp only []
+    prog_simp [runM_pure]
+
+theorem find_filter_yMatch (t : List PRow) (ys : List YRef) (y : Nat) (h : YRef.known y ∈ ys) :
+    (t.filter (fun r => yMatch ys r.y)).find? (·.y == y) = t.find? (·.y == y) := by
+  induction t with
+  | nil => rfl
+  | cons r rest ih =>
+    simp only [List.filter_cons]
+    by_cases hy : r.y = y
+    · subst hy
+      have : yMatch ys r.y = true := by
+        unfold yMatch; simp [h]
+      simp [this]
+    · by_cases hm : yMatch ys r.y = true
+      · simp [hm, hy, ih]
+      · simp [hm, hy, ih]
+
+/-- The answer for each `Y` is decided by the whole tables (the IN-list filter loses nothing). -/
+theorem stateOf_filter (used pending : List PRow) (ys : List YRef) (y : YRef) (h : y ∈ ys) :
+    stateOf (used.filter (fun r => yMatch ys r.y)) (pending.filter (fun r => yMatch ys r.y)) y = stateOf used pending y := by
+  cases y with
+  | unk t => rfl
+  | known y =>
+    simp only [stateOf, find_filter_yMatch _ ys y h]
+
+
 end Gonuts.Model.Mint
